@@ -548,13 +548,13 @@ def fam_impl_for_spec(iv):
     for e in tr.split(";"):
         if e.startswith("A") and "(" in e:
             continue
-        m = re.match(r"CORS\(([^;]*);([^)]*)\)$", e)
+        m = re.match(r"CORS\(([^!]*)!([^)]*)\)$", e)
         if m:
             hs = m.group(2)
             if hs != "-":
                 names = sorted(set(bytes.fromhex(hs).decode("latin1").split(",")))
                 hs = ",".join(names).encode("latin1").hex()
-            e = "CORS(%s;%s)" % (m.group(1), hs)
+            e = "CORS(%s!%s)" % (m.group(1), hs)
         if e and e != "-":
             evs.append(e)
     return st + "|" + (";".join(evs) if evs else "-")
@@ -578,7 +578,8 @@ def fam_report_bad_packages(run, meta, allowed=None):
     observation; for the router family every corpus spec is in the dialect, so
     it is a failure of the tie (reported as a violation of the property being
     checked, with the document as replay)"""
-    bad = meta.get("packages_bad") or []
+    bad = [b for b in (meta.get("packages_bad") or []) if not (b["generr"] and not b["genpanic"] and not b["builderr"])]
+    # (a package the generator REJECTS with an error is compared with the model's gen_accepts on its S line)
     for b in bad[:3]:
         run.violation({"property": run.prop, "broken": "corpus package does not generate/compile",
                        "generr": b["generr"], "genpanic": b["genpanic"], "builderr": b["builderr"],
@@ -641,7 +642,73 @@ def check_C03(run, replay=None):
         trusted=ROUTER_TRUSTED)
 
 
-CHECKS = {"C19": check_C19, "C13": check_C13, "C03": check_C03}
+def sig_security(c, iv, mv, sv, ctx):
+    """known-finding signatures for C11 (see KNOWN_FINDINGS.txt)"""
+    sline = next((l for l in (ctx or []) if l.startswith("S ")), "")
+    kv = parse_kv(sline)
+    kinds = {}
+    for e in kv.get("schemes", "-").split(","):
+        p = e.split(":")
+        if len(p) == 3:
+            kinds[p[0]] = p[1]
+    multi = False
+    unsupported = False
+    secs = [kv.get("global", "none")]
+    for p in kv.get("paths", "").split(";"):
+        for o in p.split("~")[-1].split("&"):
+            f = o.split("/")
+            if len(f) == 3:
+                secs.append(f[1])
+    for sec in secs:
+        if sec in ("i", "e", "none"):
+            continue
+        for alt in sec.split("|"):
+            names = alt.split("+")
+            if len(names) > 1:
+                multi = True
+            if any(kinds.get(n) not in ("bearer", "keyheader", "keyquery") for n in names):
+                unsupported = True
+    if multi:
+        return "multi_scheme_requirement"
+    if unsupported:
+        return "unsupported_scheme_kind"
+    return None
+
+
+def check_C11(run, replay=None):
+    return check_router_family(
+        run, replay,
+        rule="all small security configurations: (A,B) drawn from {bearer, apiKey-header, apiKey-query, http-basic (unsupported)} x global in "
+             "{none,[A],[A,B]} x GET and POST each in {inherit,[],[A],[B],[A,B],[A and B]} x {same path, different paths} plus a PUT with "
+             "`security: []` (2592 specs; thorough: all, quick: a seeded 150); per spec every combination of {absent, valid, invalid} credentials "
+             "for A and B x hooks {all installed, A nil, B nil} x the three operations; hooks tag the request so the handler reports which "
+             "authenticator's request it received; non-trivial = not a 404",
+        trusted=ROUTER_TRUSTED + ["user authenticators are modelled as token predicates (accept exactly one token / nil)"],
+        signature=sig_security)
+
+
+def check_C16(run, replay=None):
+    return check_router_family(
+        run, replay,
+        rule="seeded template sets x base-path forms, half with bearer/apiKey-secured operations, a third with CORS; middleware stacks of length "
+             "0..4 x spec-file handler installed or not x not-found handler installed or not; requests: the C03 universe (depth<=3), every "
+             "template instantiated, the spec-file path and four near-misses, x GET/POST/OPTIONS; traces (enter/leave with SchemaPath, "
+             "authenticator calls, handler, not-found, spec-file, preflight) compared verbatim with the model and, without authenticator "
+             "events, with the declarative spec; non-trivial = not a 404",
+        trusted=ROUTER_TRUSTED + ["user middlewares are the well-behaved wrappers Enter i; next; Leave i"])
+
+
+def check_C17(run, replay=None):
+    return check_router_family(
+        run, replay,
+        rule="seeded path items (method subsets incl. explicit OPTIONS, header parameters at path-item and operation level in several "
+             "spellings, bearer / apiKey-header / apiKey-query / empty security, global bearer) x cors on/off x CORS handler nil/set; "
+             "OPTIONS/GET/POST to every declared path and one undeclared; the installed CORSHandler records its arguments; "
+             "methods compared as a list, headers as a set against the declarative spec and verbatim against the model; non-trivial = not a 404",
+        trusted=ROUTER_TRUSTED + ["http.CanonicalHeaderKey modelled for ASCII (Model/Serve.v canon_key), tied by these cases"])
+
+
+CHECKS = {"C19": check_C19, "C13": check_C13, "C03": check_C03, "C11": check_C11, "C16": check_C16, "C17": check_C17}
 
 
 def setup():
